@@ -11,17 +11,30 @@ package unique
 //@ func (g *gen) Generate(typs []types.Type) (err error)
 //@ param typs: len=1
 
-// The O-clauses below are decided on the path for ==-comparable elements
-// (keys of the set of the list). On the hash-bucket path (elements that are not
-// ==-comparable) the emitted text is checked to parse, type-check and match its
-// signature, but its functional contract (pairwise non-Equal, covering, first
-// occurrences in order) needs a bucket-table invariant that is not mechanised:
-// "o-only" restricts the functional clauses to the comparable path.
+// Comparable elements: keys of the set of the list. Other elements: the
+// hash-bucket loop; its invariant ties every kept position k < u to an entry of the
+// bucket table under HashSpec(list[k]) (and only such entries), so that a scan of
+// the bucket of list[i] that finds no Equal element means no kept element is
+// Equal to list[i] (this is where the contract of derived Hash, Equal ==> same
+// hash, is used). The list is reused in place (documented by the emitted comment).
 //@ func (g *gen) genFuncFor(typ *types.Slice) (err error)
 //@ emits: decls
 //@ serves: unique len=1 typ=typs[0]
 //@ o-sig: (list $typ) (r $typ)
-//@ o-only: derive.IsComparable(Elem(typ))
-//@ o-ensures: [covers] forall j int :: 0 <= j && j < len(list) ==> exists k int :: 0 <= k && k < len(r) && r[k] == list[j]
-//@ o-ensures: [only-input-elements] forall k int :: 0 <= k && k < len(r) ==> exists j int :: 0 <= j && j < len(list) && r[k] == list[j]
-//@ o-ensures: [pairwise-distinct] forall a int, b int :: 0 <= a && a < b && b < len(r) ==> r[a] != r[b]
+//@ o-mutates: list
+//@ o-ensures: when derive.IsComparable(Elem(typ))=yes [covers] forall j int :: 0 <= j && j < len(list) ==> exists k int :: 0 <= k && k < len(r) && r[k] == list[j]
+//@ o-ensures: when derive.IsComparable(Elem(typ))=yes [only-input-elements] forall k int :: 0 <= k && k < len(r) ==> exists j int :: 0 <= j && j < len(list) && r[k] == list[j]
+//@ o-ensures: when derive.IsComparable(Elem(typ))=yes [pairwise-distinct] forall a int, b int :: 0 <= a && a < b && b < len(r) ==> r[a] != r[b]
+//@ o-ensures: when derive.IsComparable(Elem(typ))=no [covers-under-Equal] forall j int :: 0 <= j && j < len(list) ==> exists k int :: 0 <= k && k < len(r) && EqC(elem(typ), r[k], list[j])
+//@ o-ensures: when derive.IsComparable(Elem(typ))=no [pairwise-non-Equal] forall a int, b int :: 0 <= a && a < b && b < len(r) ==> !EqC(elem(typ), r[a], r[b])
+//@ o-ensures: when derive.IsComparable(Elem(typ))=no [first-occurrences] forall k int :: 0 <= k && k < len(r) ==> exists j int :: k <= j && j < len(list) && r[k] == list[j] && forall j2 int :: 0 <= j2 && j2 < j ==> !EqC(elem(typ), list[j2], list[j])
+//@ o-ensures: when derive.IsComparable(Elem(typ))=no [in-order] forall a int, b int :: 0 <= a && a < b && b < len(r) ==> exists ja int, jb int :: 0 <= ja && ja < jb && jb < len(list) && r[a] == list[ja] && r[b] == list[jb]
+//@ o-loop: when derive.IsComparable(Elem(typ))=no 1: invariant 0 <= u && u <= i && i <= len(list) && len(list) == len(old(list)) && table != nil
+//@ o-loop: when derive.IsComparable(Elem(typ))=no 1: invariant forall j int :: i <= j && j < len(list) ==> list[j] == old(list)[j]
+//@ o-loop: when derive.IsComparable(Elem(typ))=no 1: invariant forall a int, b int :: 0 <= a && a < b && b < u ==> !EqC(elem(typ), list[a], list[b])
+//@ o-loop: when derive.IsComparable(Elem(typ))=no 1: invariant forall j int :: 0 <= j && j < i ==> exists k int :: 0 <= k && k < u && EqC(elem(typ), list[k], old(list)[j])
+//@ o-loop: when derive.IsComparable(Elem(typ))=no 1: invariant forall k int :: 0 <= k && k < u ==> exists j int :: k <= j && j < i && list[k] == old(list)[j] && forall j2 int :: 0 <= j2 && j2 < j ==> !EqC(elem(typ), old(list)[j2], old(list)[j])
+//@ o-loop: when derive.IsComparable(Elem(typ))=no 1: invariant forall a int, b int :: 0 <= a && a < b && b < u ==> exists ja int, jb int :: 0 <= ja && ja < jb && jb < i && list[a] == old(list)[ja] && list[b] == old(list)[jb]
+//@ o-loop: when derive.IsComparable(Elem(typ))=no 1: invariant forall h uint64, p int :: h in table && 0 <= p && p < len(table[h]) ==> 0 <= table[h][p] && table[h][p] < u && HashSpec(elem(typ), list[table[h][p]]) == h
+//@ o-loop: when derive.IsComparable(Elem(typ))=no 1: invariant forall k int :: 0 <= k && k < u ==> HashSpec(elem(typ), list[k]) in table && exists p int :: 0 <= p && p < len(table[HashSpec(elem(typ), list[k])]) && table[HashSpec(elem(typ), list[k])][p] == k
+//@ o-loop: when derive.IsComparable(Elem(typ))=no 2: invariant !contains && forall p int :: 0 <= p && p < $i ==> !EqC(elem(typ), list[indexes[p]], list[i])
